@@ -60,6 +60,9 @@ def run(report, tier, seed, driver, proofs_ok):
                 st["NotPrincipal"] = gen.gen_principal(rng)
             stmts.append(st)
         wl = rng.sample(gen.PRINCIPALS, rng.randrange(0, 5))
+        if rng.random() < 0.4:
+            # entries that differ from a principal only in letter case are other principals (membership is literal)
+            wl += [rng.choice([str.upper, str.lower, str.swapcase, str.title])(x) for x in rng.sample(gen.PRINCIPALS, rng.randrange(1, 4))]
         docs.append((stmts, wl))
     ops, ios = [], []
     for stmts, wl in docs:
